@@ -573,4 +573,56 @@ theorem connShots_not_fatal (dka : Bool) (dflt : ConnFate) (hd : dflt.fatal = fa
     · exact h1
     · exact hm p hpm
 
+/-- a scenario shot over connections none of which is of the fatal kind does not meet the documented fatal condition,
+and leaves only such connections to the next shot -/
+theorem scenarioOverConns_not_fatal (dka : Bool) (dflt : ConnFate) (hd : dflt.fatal = false) (h2 : Bool)
+    (steps : List (StepCfg × Reply)) :
+    ∀ (isOpen : Bool) (plan : List ConnFate), (∀ c ∈ plan, c.fatal = false) →
+      scenarioFatal h2 (scenarioOverConns dka dflt h2 isOpen plan steps).1 = false ∧
+      ∀ c ∈ (scenarioOverConns dka dflt h2 isOpen plan steps).2.2, c.fatal = false := by
+  induction steps with
+  | nil => intro o plan hp; exact ⟨rfl, hp⟩
+  | cons p rest ih =>
+    obtain ⟨c, r⟩ := p
+    intro o plan hp
+    by_cases hpf : c.prepFails = true
+    · simp only [scenarioOverConns, hpf, if_true]
+      refine ⟨?_, hp⟩
+      simp [scenarioFatal, hpf, stepOutcome]
+    · have hpf' : c.prepFails = false := by simpa using hpf
+      obtain ⟨h1, h2'⟩ := connNext_not_fatal dka dflt hd o plan hp r
+      have hso : stepOutcomeH2 h2 (connNext dka dflt o plan r).1.1 c (connNext dka dflt o plan r).1.2
+          = stepOutcome c (connNext dka dflt o plan r).1.2 := by
+        simp [stepOutcomeH2, h1]
+      simp only [scenarioOverConns, hpf', Bool.false_eq_true, if_false, hso]
+      cases ho : stepOutcome c (connNext dka dflt o plan r).1.2 with
+      | prepErr => exact ⟨by simp [scenarioFatal, h1, ho], h2'⟩
+      | doErr e => exact ⟨by simp [scenarioFatal, h1, ho], h2'⟩
+      | bodyErr st e => exact ⟨by simp [scenarioFatal, h1, ho], h2'⟩
+      | received st post =>
+        cases post with
+        | err => exact ⟨by simp [scenarioFatal, h1, ho], h2'⟩
+        | panic => exact ⟨by simp [scenarioFatal, h1, ho], h2'⟩
+        | ok =>
+          obtain ⟨i1, i2⟩ := ih (connNext dka dflt o plan r).2.1 (connNext dka dflt o plan r).2.2 h2'
+          exact ⟨by simp [scenarioFatal, h1, ho, i1], i2⟩
+
+theorem scenarioShotsOverConns_not_fatal (dka : Bool) (dflt : ConnFate) (hd : dflt.fatal = false) (h2 : Bool) (scn : String)
+    (steps : List (StepCfg × Reply)) (n : Nat) :
+    ∀ (isOpen : Bool) (plan : List ConnFate), (∀ c ∈ plan, c.fatal = false) →
+      (scenarioShotsOverConns dka dflt h2 scn steps n isOpen plan).length = n ∧
+      ∀ g ∈ scenarioShotsOverConns dka dflt h2 scn steps n isOpen plan, g.documentedFatal = false := by
+  induction n with
+  | zero => intro o plan _; simp [scenarioShotsOverConns]
+  | succ k ih =>
+    intro o plan hp
+    obtain ⟨h1, h2'⟩ := scenarioOverConns_not_fatal dka dflt hd h2 steps o plan hp
+    obtain ⟨hl, hm⟩ := ih (scenarioOverConns dka dflt h2 o plan steps).2.1 (scenarioOverConns dka dflt h2 o plan steps).2.2 h2'
+    refine ⟨by simp [scenarioShotsOverConns, hl], ?_⟩
+    intro g hg
+    simp only [scenarioShotsOverConns, List.mem_cons] at hg
+    rcases hg with rfl | hg
+    · simpa [GunShot.documentedFatal] using h1
+    · exact hm g hg
+
 end Pandora.Proofs.C19
